@@ -11,40 +11,22 @@ ERROR awkward_ListOffsetArray_reduce_nonlocal_outstartsstops_64(
   int64_t lendistincts,
   const int64_t* gaps,
   int64_t outlength) {
-  int64_t maxcount = lendistincts / outlength;
-
-  int64_t j = 0;
-  int64_t k = 0;
-  int64_t maxdistinct = -1;
-  int64_t lasti = -1;
-  for (int64_t i = 0;  i < lendistincts;  i++) {
-    if (maxdistinct < distincts[i]) {
-      maxdistinct = distincts[i];
-
-      int64_t extra = (i - lasti)/maxcount;
-      lasti = i;
-
-      int64_t numgappy = gaps[j];
-      if (numgappy < extra) {
-        numgappy = extra;
-      }
-
-      for (int64_t gappy = 0;  gappy < numgappy;  gappy++) {
-        outstarts[k] = i;
-        outstops[k] = i;
-        k++;
-      }
-      j++;
+  // distincts consists of outlength blocks of maxcount slots, one block per
+  // output list (slot parent*maxcount + position); the used slots (!= -1) of
+  // a block are contiguous from its beginning. (gaps is no longer needed.)
+  int64_t maxcount = (outlength == 0 ? 0 : lendistincts / outlength);
+  for (int64_t k = 0;  k < outlength;  k++) {
+    int64_t start = k*maxcount;
+    int64_t stop = start;
+    while (stop < start + maxcount  &&  distincts[stop] != -1) {
+      stop++;
     }
-
-    if (distincts[i] != -1) {
-      outstops[k - 1] = i + 1;
+    if (stop == start) {
+      start = 0;
+      stop = 0;
     }
-  }
-
-  for (;  k < outlength;  k++) {
-    outstarts[k] = lendistincts + 1;
-    outstops[k] = lendistincts + 1;
+    outstarts[k] = start;
+    outstops[k] = stop;
   }
 
   return success();
